@@ -31,6 +31,7 @@ Require Import V.Proofs.C04XBytes.
 Require Import V.Model.PubGetters.
 Require Import V.Proofs.C04Getters.
 Require Import V.Proofs.C04LimitContract.
+Require Import V.Proofs.C04Claims.
 Open Scope Z_scope.
 
 (* every reachable state satisfies the invariant the other statements are proved from *)
@@ -372,6 +373,35 @@ Theorem C04_oracle_getters_exclusive : forall m rv h ops x0,
 Proof. exact oracle_gets_exclusive. Qed.
 Print Assumptions C04_oracle_getters_exclusive.
 
+(* ---- claim + commit (round 3): the oracle's claim rule ----
+   `holds_history2` = `holds_history` and: commit() / abort() change words of the frame handed out by the last accepted try_claim
+   only (nothing when no claim was accepted).  One step: *)
+Theorem C04_oracle_commit_words : forall m s o cl r0,
+  (o = Abort \/ exists body, o = Commit body) -> all_spans (ps_log s) -> claim_in_place s -> claim_rel cl (ps_claim s) ->
+  claim_words cl (o_dump (pub_obs m s (fst (env_step s o)) r0)) = true.
+Proof. exact oracle_claim_words. Qed.
+Print Assumptions C04_oracle_commit_words.
+
+(* which claim the publication's BufferClaim holds after a step *)
+Theorem C04_claim_after_accept : forall m rv s n off len s' p, pub_inv n off s -> op_ok (ps_log s) (Claim len) ->
+  pub_step m rv s (Claim len) = (s', Ok p) -> ps_claim s' = Some (n mod 3, off, len + 32).
+Proof. exact step_claim_new. Qed.
+Print Assumptions C04_claim_after_accept.
+
+Theorem C04_claim_kept : forall m rv s n off o s' r, pub_inv n off s -> op_ok (ps_log s) o ->
+  pub_step m rv s o = (s', r) -> (forall len p, o = Claim len -> r <> Ok p) -> ps_claim s' = ps_claim s.
+Proof. exact step_claim_same. Qed.
+Print Assumptions C04_claim_kept.
+
+(* whole histories of the shared publication: the cleaning contract, and commits / aborts made while the claimed frame is still the
+   one in the log (`commits_in_place`: a BufferClaim is not used after its partition has been cleaned and reused) *)
+Theorem C04_oracle_history2 : forall m rv h ops,
+  handover_ok h -> handover_aligned h -> hist_ok (handover_log h) ops ->
+  clean_before_reuse m rv (pub_init (handover_log h)) ops -> commits_in_place m rv (pub_init (handover_log h)) ops ->
+  holds_history2 (geom_of_handover h) (map oop_of ops) (pub_trace m rv (pub_init (handover_log h)) ops) = true.
+Proof. exact oracle_history2_shared. Qed.
+Print Assumptions C04_oracle_history2.
+
 (* ---- the limit contract (`limit_ok`: limit <= TL*2^31 + TL/2), examined (round 3) ----
    Negative limits, limits below the position, i64::MIN: always inside the contract (it is an upper bound only).
    The exclusive publication does not need the contract at all: `xreachable_any` = histories whose SetLimit operations carry any
@@ -460,15 +490,18 @@ Example C04_history_example :
   let ops := [SetLimit 100000; SetConnected true; Offer (payload 1 100); Clean; Offer (payload 2 100); Clean; Claim 8; Clean;
               Commit (payload 3 8); Bulk [firstn 10 (payload 4 30); []; skipn 10 (payload 4 30)]] in
   handover_ok h /\ handover_aligned h /\ hist_ok (handover_log h) ops /\ cleaned_between false ops /\
+  commits_in_place Debug harness_rv (pub_init (handover_log h)) ops /\
   map (fun x => fst (fst x)) (pub_trace Debug harness_rv (pub_init (handover_log h)) ops) =
     [Ok 0; Ok 0; Err AdminAction; Ok 0; Ok 5312; Ok 0; Ok 5376; Ok 0; Ok 0; Ok 5440].
 Proof.
-  cbv zeta. split; [|split; [|split; [|split]]].
+  cbv zeta. split; [|split; [|split; [|split; [|split]]]].
   - unfold handover_ok, geometry_ok. cbn [h_init h_tlen h_mtu h_n0 h_off0].
     split; [split; [exists 10; split; [lia|reflexivity]|]|]; vm_compute; repeat split; discriminate.
   - split; reflexivity.
   - unfold hist_ok. repeat (constructor; [vm_compute; try exact I; repeat split; discriminate|]). constructor.
   - vm_compute. repeat split.
+  - vm_compute. repeat (split; [exact I|]). split; [|split; exact I].
+    eexists. split; [first [left; reflexivity | right; reflexivity]|]. split; [reflexivity|discriminate].
   - vm_compute. reflexivity.
 Qed.
 
